@@ -41,7 +41,7 @@ def minimums(tier):
             "mode.--src": 30, "mode.--src-exclude": 30, "mode.-a -x": 30, "mode.-l -x": 30, "mode.--plid -x": 30, "sub.relations_checked": 40,
             "junk.nested_dir": 100, "junk.symlink_to_dir": 50, "junk.dir_named_with_extension": 30,
             "mode.with_extension_filter": 60, "sub.good_pel_with_unencodable_text": 4,
-            "junk.sibling_of_good_pel": 150, "sub.sibling_junk": 8, "junk.next_to_the_looked_up_pel": 300}
+            "junk.sibling_of_good_pel": 150, "sub.sibling_junk": 8, "junk.next_to_the_looked_up_pel": 300, "junk.nested_dir_named_like_a_bmc_path": 100}
 
 
 def classify(data, cls):
@@ -293,6 +293,13 @@ def run(spec, ctx):
                 for e in dirs.gen_dir_model(rng, u, 2, reg=reg):
                     dirty.add(dirs.Entry("sub%d/%s" % (rnd, e.name), e.pel, e.data, junk=True))
                 ctx.count("junk.nested_dir")
+                if rng.random() < 0.5:
+                    # nested directories called like the places a BMC keeps its PELs in: still just subdirectories
+                    nd = rng.choice(["logs", "pels/logs", "archive", "var/lib/phosphor-logging/extensions/pels/logs", "pels", "logs/archive"])
+                    if not os.path.lexists(os.path.join(dirty.root, nd.split("/")[0])):
+                        for e in dirs.gen_dir_model(rng, u, 2, reg=reg):
+                            dirty.add(dirs.Entry("%s/%s" % (nd, e.name), e.pel, e.data, junk=True))
+                        ctx.count("junk.nested_dir_named_like_a_bmc_path")
                 if rng.random() < 0.6:  # ... and a symbolic link to it (or to a directory elsewhere): a subdirectory by another name
                     ln = [n for n in dirs.gen_names(rng, 6) if n not in {e.name for e in dirty.entries}][0]
                     os.symlink(rng.choice(["sub%d" % rnd, os.path.join(dirty.root, "sub%d" % rnd), root]),
